@@ -20,13 +20,15 @@ LBL_RU = Label("U")
 LABELS = [LBL_A6, LBL_B6, LBL_A3, LBL_B3, LBL_BC, LBL_RU]
 # labels that differ from LBL_A6 / LBL_A3 in a single byte, share a prefix with them, or are nearly zero
 LBL_A6_LAST = Label("6", b"abcdeg")
+LBL_6_ONES = Label("6", b"\xff" * 6)
+LBL_3_ONES = Label("3", b"\xff" * 3)
 LBL_A6_FIRST = Label("6", b"bbcdef")
 LBL_6_NEARZERO = Label("6", bytes(5) + b"\x01")
 LBL_6_ZEROTAIL = Label("6", b"\x01" + bytes(5))
 LBL_A3_LAST = Label("3", b"xyy")
 LBL_3_ABC = Label("3", b"abc")          # prefix of LBL_A6
 LBL_3_NEARZERO = Label("3", b"\x00\x00\x01")
-TRICKY_LABELS = [LBL_A6_LAST, LBL_A6_FIRST, LBL_6_NEARZERO, LBL_6_ZEROTAIL, LBL_A3_LAST, LBL_3_ABC, LBL_Z3, LBL_3_NEARZERO]
+TRICKY_LABELS = [LBL_A6_LAST, LBL_A6_FIRST, LBL_6_NEARZERO, LBL_6_ZEROTAIL, LBL_A3_LAST, LBL_3_ABC, LBL_Z3, LBL_3_NEARZERO, LBL_6_ONES, LBL_3_ONES]
 
 
 class Session:
@@ -123,6 +125,9 @@ class Session:
 
     def peek(self, expr, **tags):
         return self.add("peek %s" % expr, op="peek", expr=expr, **tags)
+
+    def pause(self, ms):
+        return self.add("pause %d" % ms, op="pause", ms=ms)
 
     def setreg(self, reg, expr):
         return self.add("setreg %d %s" % (reg, expr), op="setreg", reg=reg, expr=expr)
